@@ -134,6 +134,12 @@ def app_message(seed, side, k, law="small", charset="ascii"):
         alph = _ALPH_ASCII + _ALPH_LATIN1 + _ALPH_BMP
     elif charset == "astral":
         alph = _ALPH_ASCII + _ALPH_BMP + _ALPH_ASTRAL
+    elif charset == "surrogate":
+        # lone surrogates cannot be put on the wire at all: the send must be refused, not mis-framed
+        alph = _ALPH_ASCII + "\ud800\udfff"
+    elif charset == "soh":
+        alph = _ALPH_ASCII + "\x01"
+
     if law == "small":
         n = r.randint(0, 12)
     elif law == "medium":
